@@ -268,16 +268,34 @@ func c08Prefix(c *Ctx) {
 			}
 			c.verdict(remOK, "LocalStore.Prune:tmp-remove", hp.Pos(), "files named with the temp prefix are removed", "files carrying the temp-chunk prefix are not removed by prune")
 			// reachable without passing a has-suffix edge (temp files carry no chunk extension)
-			suffixEdges := edgesWhere(cl, func(iff *ssa.If) (bool, bool) {
-				call, ok := stripNot(iff.Cond).(*ssa.Call)
-				if !ok || callee(call) != "strings.HasSuffix" {
-					return false, false
+			// (the test may sit in a predicate helper: then its call sites are what has to be reached)
+			var sitesOf func(at ssa.Instruction, depth int) []ssa.Instruction
+			sitesOf = func(at ssa.Instruction, depth int) []ssa.Instruction {
+				owner := at.Parent()
+				if depth < 4 && newHelpers[owner] && owner.Parent() == nil && len(helperSites[owner]) > 0 {
+					var out []ssa.Instruction
+					for _, cs := range helperSites[owner] {
+						out = append(out, sitesOf(cs, depth+1)...)
+					}
+					return out
 				}
-				_, truth, _ := cmpOf(iff.Cond)
-				return truth, !truth
-			})
-			r := reachable(cl, suffixEdges)
-			c.verdict(r[hp.Block()], "LocalStore.Prune:tmp-before-filter", hp.Pos(), "the temp-file test is reached before/independently of the chunk-extension filter",
+				return []ssa.Instruction{at}
+			}
+			before := true
+			for _, site := range sitesOf(hp.(ssa.Instruction), 0) {
+				suffixEdges := edgesWhere(site.Parent(), func(iff *ssa.If) (bool, bool) {
+					call, ok := stripNot(iff.Cond).(*ssa.Call)
+					if !ok || callee(call) != "strings.HasSuffix" {
+						return false, false
+					}
+					_, truth, _ := cmpOf(iff.Cond)
+					return truth, !truth
+				})
+				if !reachable(site.Parent(), suffixEdges)[site.Block()] {
+					before = false
+				}
+			}
+			c.verdict(before, "LocalStore.Prune:tmp-before-filter", hp.Pos(), "the temp-file test is reached before/independently of the chunk-extension filter",
 				"the temp-file test lies behind the chunk-extension filter: abandoned .tmp-cacnk files (which carry no chunk extension) are never removed in compressed mode")
 			// the tested name is the base name of the walked path
 			c.verdict(hasOrigin(a[0], func(o string) bool { return o == "call:path/filepath.Base#0" || o == "param:path" }), "LocalStore.Prune:tmp-name", hp.Pos(), "the prefix is tested on the file's base name", "the temp prefix is not tested on the file's base name")
